@@ -436,7 +436,7 @@ pub struct IStreamCase {
 	pub s: crate::gen::CandleStream,
 }
 
-fn run_indicator_stream(c: &IStreamCase, st: &mut Stats) -> CaseResult {
+pub fn run_indicator_stream(c: &IStreamCase, st: &mut Stats) -> CaseResult {
 	let cfg = cfggen::instantiate(&c.cfg).map_err(|e| Failure::new("C10:generator", format!("{}: {e}", c.cfg.name)))?;
 	let first = c.s.cs[0].candle();
 	let desc = || format!("{} {}", c.cfg.name, cfg.to_json());
@@ -534,6 +534,7 @@ pub fn def(tier: Tier) -> PropertyDef {
 	}
 	checks.push(pt("strings", tier.pick(80000, 400000), string_strategy(), run_string));
 	let _ = fail_unused;
+	checks.extend(crate::fuzz_entry::corpus_checks("C10"));
 	PropertyDef {
 		id: "C10",
 		level: "exploration",
